@@ -39,6 +39,7 @@ def chain(*fs):
 
 
 JC = H.JH_COMP
+SL = H.SKEIN_LIB
 CASES = [
     # ---- JH compressor.rs
     ("N01 jh f8_impl: second load `data.offset(2)` -> `data.offset(1)` (before the rounds)", False, "jh", JC, sub1("y.2 ^= ptr::read_unaligned(data.offset(2));", "y.2 ^= ptr::read_unaligned(data.offset(1));")),
@@ -66,6 +67,19 @@ CASES = [
     ("P03 jh f8_impl: ss / l merged into one expression", True, "jh", JC, sub1("            y = ss(y, unsafe { X2Bytes::<M> { bytes: rc[j] }.x2 });\n            y = l(y);", "            let k = unsafe { X2Bytes::<M> { bytes: rc[j] }.x2 };\n            y = l(ss(y, k));")),
     ("P04 jh match arms reordered, comment added", True, "jh", JC, sub1("                0 => M::u128x1::swap1,\n                1 => M::u128x1::swap2,", "                1 => M::u128x1::swap2, // second\n                0 => M::u128x1::swap1,")),
     ("P05 jh f8_impl: field-wise swap instead of the X8 constructor", True, "jh", JC, sub1("            y = X8(y.0, f(y.1), y.2, f(y.3), y.4, f(y.5), y.6, f(y.7));", "            y.7 = f(y.7);\n            y.1 = f(y.1);\n            y.5 = f(y.5);\n            y.3 = f(y.3);")),
+    # ---- Skein lib.rs: the Block union
+    ("N21 skein bitxor: `*s ^= *r` -> `*s |= *r`", False, "skein", SL, sub1("            *s ^= *r;", "            *s |= *r;")),
+    ("N22 skein bitxor: `*s ^= *r` -> `*s = *r` (xor dropped)", False, "skein", SL, sub1("            *s ^= *r;", "            *s = *r;")),
+    ("N23 skein bitxor: words of rhs taken in reverse order (loud)", False, "skein", SL, sub1(".zip(rhs.as_word_array())", ".zip(rhs.as_word_array().iter().rev())")),
+    ("N24 skein bitxor: xors self with itself", False, "skein", SL, sub1(".zip(rhs.as_word_array())", ".zip(self.clone().as_word_array())")),
+    ("N25 skein from_byte_array ignores its argument", False, "skein", SL, sub1("        Block { bytes: *block }", "        Block { words: GenericArray::default() }")),
+    ("N26 skein union: word view over N/16 words (sizes differ, loud)", False, "skein", SL, sub1("    words: GenericArray<u64, <N as PartialDiv<U8>>::Output>,\n}", "    words: GenericArray<u64, <N as PartialDiv<U16>>::Output>,\n}")),
+    ("N27 skein as_byte_array returns the bytes from offset 8 (loud)", False, "skein", SL, sub1("        unsafe { &self.bytes }", "        unsafe { &*(self.bytes.as_ptr().add(8) as *const GenericArray<u8, N>) }")),
+    ("N28 skein bitxor: first word skipped", False, "skein", SL, sub1("self.as_word_array_mut().iter_mut().zip(rhs.as_word_array())", "self.as_word_array_mut().iter_mut().zip(rhs.as_word_array()).skip(1)")),
+    ("N29 skein as_word_array_mut hands out the byte view's place of a clone (writes lost)", False, "skein", SL, sub1("for (s, r) in self.as_word_array_mut()", "for (s, r) in self.clone().as_word_array_mut()")),
+    ("P06 skein bitxor: loop variables renamed, comment added", True, "skein", SL, sub1("        for (s, r) in self.as_word_array_mut().iter_mut().zip(rhs.as_word_array()) {\n            *s ^= *r;", "        for (dst, src) in self.as_word_array_mut().iter_mut().zip(rhs.as_word_array()) {\n            /* word-wise */ *dst ^= *src;")),
+    ("P07 skein bitxor: `*s ^= *r` written out", True, "skein", SL, sub1("            *s ^= *r;", "            let t = *s ^ *r;\n            *s = t;")),
+    ("P08 skein bytes(): via a local", True, "skein", SL, sub1("        self.as_byte_array().as_slice()", "        let view = self.as_byte_array();\n        view.as_slice()")),
 ]
 
 
